@@ -8,6 +8,7 @@ import (
 	"sync/atomic"
 	"time"
 
+	dragonboat "github.com/lni/dragonboat/v4"
 	"github.com/lni/dragonboat/v4/verifh/cluster"
 	"github.com/lni/dragonboat/v4/verifh/common"
 )
@@ -35,11 +36,12 @@ func runCatchUp(r *common.Run, sk *sink, caseNo int, rng *rand.Rand, seed int64)
 	snap := uint64(6 + rng.Intn(12))
 	overhead := uint64(1 + rng.Intn(2))
 	slow := time.Duration(rng.Intn(3)) * time.Millisecond
+	slowSync := time.Duration(rng.Intn(3)) * time.Millisecond
 	cycles := 8 + rng.Intn(6)
-	fmt.Printf("catch-up case %d sm %s store %s snapshotEntries %d overhead %d slowPrepare %v cycles %d\n", caseNo, kind, store, snap, overhead, slow, cycles)
+	fmt.Printf("catch-up case %d sm %s store %s snapshotEntries %d overhead %d slowPrepare %v slowSync %v cycles %d\n", caseNo, kind, store, snap, overhead, slow, slowSync, cycles)
 	c := cluster.NewCluster(cluster.Options{Hosts: 4, Seed: seed, RTTMs: 5, Store: store,
 		SMOpt: func(uint64, uint64) cluster.SMOptions {
-			return cluster.SMOptions{Kind: kind, RecordApply: true, RaceCanary: true, SlowPrepare: slow}
+			return cluster.SMOptions{Kind: kind, RecordApply: true, RaceCanary: true, SlowPrepare: slow, SlowSync: slowSync}
 		}}, sk)
 	const shardID = 1
 	if err := c.StartAll(); err != nil {
@@ -83,6 +85,39 @@ func runCatchUp(r *common.Run, sk *sink, caseNo int, rng *rand.Rand, seed int64)
 			}
 		}(g)
 	}
+	// snapshots requested by the user (plain and exported) on any replica while all of this runs
+	wg.Add(1)
+	go func() {
+		defer wg.Done()
+		prng := rand.New(rand.NewSource(seed ^ 0x77))
+		n := 0
+		for atomic.LoadInt32(&stopFlag) == 0 {
+			time.Sleep(time.Duration(20+prng.Intn(60)) * time.Millisecond)
+			h := c.Hosts[prng.Intn(3)]
+			nh := h.NodeHost()
+			if nh == nil {
+				continue
+			}
+			opt := dragonboat.SnapshotOption{}
+			if prng.Intn(2) == 0 {
+				n++
+				opt.Exported = true
+				opt.ExportPath = fmt.Sprintf("/export-%d", n)
+				if err := h.FS.MkdirAll(opt.ExportPath, 0o755); err != nil {
+					continue
+				}
+			} else if prng.Intn(2) == 0 {
+				opt.OverrideCompactionOverhead, opt.CompactionOverhead = true, uint64(1+prng.Intn(4))
+			}
+			if rs, err := nh.RequestSnapshot(shardID, opt, time.Second); err == nil {
+				res := <-rs.ResultC()
+				rs.Release()
+				if res.Completed() {
+					sk.Count("requested_snapshots_completed", 1)
+				}
+			}
+		}
+	}()
 	joined := false
 	for cy := 0; cy < cycles; cy++ {
 		li := c.LeaderHost(shardID, replicas)
